@@ -237,8 +237,8 @@ class ModelsOps:
                     and not getattr(r, "convtable", False):
                 # operation cache: Engine A follows the miss (hit == recomputation, rule R17.1) unless hits are modelled
                 self.st.effects.append(("mapread", r, l, self.where(node)))
-                present = False
-                if self.cache_hits:
+                present = self.is_memo_map(r) and self.memo_stored(r, l, node) is not None
+                if not present and self.cache_hits and (self.cache_hits is True or r.name in self.cache_hits):
                     present = bool(I.choose(2, f"cache@{getattr(node, 'lineno', '?')}", ["miss", "hit"]))
                     if present:
                         r.__dict__.setdefault("hit_keys", []).append(l)
@@ -247,8 +247,7 @@ class ModelsOps:
                     and not getattr(r, "convtable", False) and not getattr(r, "unit_values", False):
                 # a memo keyed by values: present only if stored on this path (Engine A follows the miss)
                 self.st.effects.append(("mapread", r, l, self.where(node)))
-                present = any(e[0] == "setitem" and isinstance(e[1], GlobalMapV) and e[1].name == r.name and
-                              self.keys_equal(e[2], l, node) for e in self.st.effects)
+                present = self.memo_stored(r, l, node) is not None
                 return BoolV(present if op is ast.In else not present)
             if isinstance(r, (ListV, GlobalMapV, OpaqueV, TupleV)) and not (isinstance(r, TupleV)):
                 res = bool(I.choose(2, f"in@{getattr(node, 'lineno', '?')}", ["absent", "present"]))
@@ -1170,6 +1169,14 @@ class ModelsOps:
         I.unsupported(node, f"call of type {name}")
 
     def instantiate(self, ci, args, kwargs, node):
+        if self.list_class_of(ci) and not kwargs and len(args) <= 1:
+            # a list subclass of the package: a list that has the class's methods as well
+            seq = self.iterate(args[0], node) if args else []
+            if seq is None:
+                self.I.unsupported(node, f"{ci.name}() of an opaque iterable")
+            lv = ListV(list(seq))
+            lv.ci = ci
+            return lv
         obj = ObjV(ci, self.st.fresh(ci.name.lower()))
         init = self.prog.lookup(ci, "__init__")
         if init is not None:
